@@ -185,10 +185,16 @@ def run_kani_cfg(cfg, obls, results, key):
     log('[kani:%s] %d harnesses, -j %d, timeout %ds' % (cfg, len(todo), jobs, timeout))
     t0 = time.time()
     p = subprocess.run(cmd, cwd=REPO, env=kani_env(cfg), capture_output=True, text=True)
-    wall = time.time() - t0
     text = p.stdout + p.stderr
-    open(export.replace('.json', '.log'), 'w').write(text)
     parsed = parse_kani_json(export, text) if os.path.exists(export) else {}
+    if not parsed:
+        # no result at all (build hiccup, e.g. a concurrent cargo invocation on the same files): one retry
+        time.sleep(5)
+        p = subprocess.run(cmd, cwd=REPO, env=kani_env(cfg), capture_output=True, text=True)
+        text = p.stdout + p.stderr
+        parsed = parse_kani_json(export, text) if os.path.exists(export) else {}
+    wall = time.time() - t0
+    open(export.replace('.json', '.log'), 'w').write(text)
     compile_error = ('error: could not compile' in text) or ('error[E' in text) or (not parsed and 'error:' in text)
     for o in todo:
         oid = 'k:%s:%s' % (o['name'], cfg)
